@@ -62,13 +62,13 @@ var fileOps = []string{"f.read", "f.readat", "f.write", "f.writeat", "f.seek", "
 func kindsFor(op string) []string {
 	switch op {
 	case "mkdir", "mkdirall":
-		return []string{"noop", "twice", "drop", "wrongperm", "wrongerr", "wrongpath", "overlap"}
+		return []string{"noop", "twice", "drop", "wrongperm", "wrongerr", "wrappederr", "wrongpath", "overlap"}
 	case "openfile":
-		return []string{"drop", "wrongperm", "wrongerr", "wrongpath", "notrunc", "overlap"}
+		return []string{"drop", "wrongperm", "wrongerr", "wrappederr", "wrongpath", "notrunc", "overlap"}
 	case "open":
-		return []string{"wrongerr", "wrongpath"}
+		return []string{"wrongerr", "wrappederr", "wrongpath"}
 	case "remove":
-		return []string{"noop", "wrongerr", "weakerr", "wrongpath", "overlap"}
+		return []string{"noop", "wrongerr", "weakerr", "wrappederr", "wrongpath", "overlap"}
 	case "rename":
 		return []string{"noop", "leavebehind", "wrongerr", "weakerr", "wrongpath", "wrongnewpath"}
 	case "stat":
@@ -346,6 +346,20 @@ func wrongErr(err error) error {
 // weakerErr replaces an error by one that the EXPECTED error "is" but that is not the expected error: syscall.ENOTEMPTY
 // (ErrNotEmpty) matches fs.ErrExist through Errno.Is, not the other way round. A suite that compares with errors.Is must
 // ask errors.Is(actual, expected); asked the wrong way round, it accepts ErrExist where ErrNotEmpty is required.
+// wrappedErr hides the right *PathError inside another error type: errors.As / errors.Is still find it, a type assertion or
+// type switch (what callers of this library use, and what the suite promises to check: "is a *PathError") does not.
+type errWrapper struct{ inner error }
+
+func (w *errWrapper) Error() string { return w.inner.Error() }
+func (w *errWrapper) Unwrap() error { return w.inner }
+
+func wrappedErr(err error) error {
+	if _, ok := err.(*hackpadfs.PathError); ok {
+		return &errWrapper{err}
+	}
+	return err
+}
+
 func weakerErr(err error) error {
 	if err == nil || !errors.Is(err, hackpadfs.ErrNotEmpty) {
 		return err
@@ -375,6 +389,8 @@ func (d *devFS) Open(name string) (hackpadfs.File, error) {
 		switch d.sp.Kind {
 		case "wrongerr":
 			err = wrongErr(err)
+		case "wrappederr":
+			err = wrappedErr(err)
 		case "wrongpath":
 			err = wrongPath(err)
 		}
@@ -405,6 +421,8 @@ func (d *devFS) OpenFile(name string, flag int, perm hackpadfs.FileMode) (hackpa
 		switch d.sp.Kind {
 		case "wrongerr":
 			err = wrongErr(err)
+		case "wrappederr":
+			err = wrappedErr(err)
 		case "wrongpath":
 			err = wrongPath(err)
 		case "drop":
@@ -444,6 +462,8 @@ func (d *devFS) mkdirLike(op, name string, perm hackpadfs.FileMode, call func(st
 		switch d.sp.Kind {
 		case "wrongerr":
 			err = wrongErr(err)
+		case "wrappederr":
+			err = wrappedErr(err)
 		case "wrongpath":
 			err = wrongPath(err)
 		case "drop":
@@ -485,6 +505,8 @@ func (d *devFS) Remove(name string) error {
 		switch d.sp.Kind {
 		case "wrongerr":
 			err = wrongErr(err)
+		case "wrappederr":
+			err = wrappedErr(err)
 		case "weakerr":
 			err = weakerErr(err)
 		case "wrongpath":
